@@ -25,6 +25,8 @@ type l0Config struct {
 	Invalid     bool     `json:"invalid"` // also generate invalid calls
 	IDSeed      uint64   `json:"id_seed"`
 	ArrayOnly   bool     `json:"array_only"` // documents: one top-level array "arr" is the playground (C04)
+	TxPct       int      `json:"tx_pct"`     // extra probability (percent) of a transaction action
+	TxStopOnErr bool     `json:"tx_stop_on_err"`
 }
 
 // l0Action is one step of a history.
@@ -481,13 +483,16 @@ func (m *l0Machine) gen(rt *rapid.T) l0Action {
 	n := len(m.w.Reps)
 	r := rapid.IntRange(0, n-1).Draw(rt, "replica")
 	c := rapid.IntRange(0, 99).Draw(rt, "action")
+	if m.cfg.TxPct > 0 && rapid.IntRange(0, 99).Draw(rt, "txbias") < m.cfg.TxPct {
+		c = 58
+	}
 	switch {
 	case c < 55:
 		call := m.genCall(rt, r, m.docView(r))
 		return l0Action{K: "local", R: r, Call: &call}
 	case c < 62 && m.cfg.Tx:
 		view := m.docView(r)
-		k := rapid.IntRange(0, 4).Draw(rt, "txlen")
+		k := rapid.IntRange(0, 5).Draw(rt, "txlen")
 		tx := sim.Tx{Tag: fmt.Sprintf("tx%d", m.steps)}
 		for i := 0; i < k; i++ {
 			call := m.genCall(rt, r, view)
@@ -502,6 +507,9 @@ func (m *l0Machine) gen(rt *rapid.T) l0Action {
 		tx.FailAt = -1
 		if rapid.IntRange(0, 2).Draw(rt, "txfail") == 0 {
 			tx.FailAt = rapid.IntRange(0, k).Draw(rt, "failat")
+		}
+		if m.cfg.TxStopOnErr {
+			tx.StopOnErr = rapid.Bool().Draw(rt, "stoponerr")
 		}
 		return l0Action{K: "tx", R: r, Tx: &tx}
 	case c < 75:
@@ -529,8 +537,14 @@ type stepInfo struct {
 	quiesce bool
 }
 
+// preHook, when set, is called right before an action is executed.
+var preHook func(m *l0Machine, a l0Action)
+
 func (m *l0Machine) apply(a l0Action) (si stepInfo, err error) {
 	m.steps++
+	if preHook != nil {
+		preHook(m, a)
+	}
 	switch a.K {
 	case "local":
 		dp := m.delivered(a.R)
